@@ -4,6 +4,7 @@ CONSTANTS
   Ns = {1, 3}
   Speeds = {1, 2, 4}
   Targets = {3, 8}
+  Delays = {2, 5}
   MaxCmd = 2
   MaxCb = 4
   MaxRd = 0
